@@ -109,7 +109,7 @@ class Response:
 class Conn:
     """client connection with explicit source port, abortive close, arbitrary segmentation"""
 
-    def __init__(self, host="127.0.0.1", port=3080, src_port=0, src_ip="127.0.0.1", timeout=20, connect=True):
+    def __init__(self, host="127.0.0.1", port=3080, src_port=0, src_ip="127.0.0.1", timeout=60, connect=True):
         self.s = socket.socket(socket.AF_INET, socket.SOCK_STREAM)
         self.s.setsockopt(socket.SOL_SOCKET, socket.SO_REUSEADDR, 1)
         self.s.setsockopt(socket.IPPROTO_TCP, socket.TCP_NODELAY, 1)
